@@ -151,9 +151,52 @@ def tree_shas(repo, n):
     return warm, coldp, scratch
 
 
+def native_kind(row):
+    """Python twin of the C35 clauses on a native row (for minimisation only)."""
+    o = row["o"]
+    k = cc.py_failed(row["c"], o["rt"], meta=False, tags=False)
+    if k is not None:
+        return "rt:" + k
+    s = o["sha"]
+    if not s["ok"]:
+        return "sha-error:%s@%s" % (s.get("exc"), s.get("site"))
+    if s["warm"] != s["scratch"] or s["coldp"] != s["scratch"]:
+        return "incremental"
+    if s["staged"] != s["oneshot"]:
+        return "staged"
+    return None
+
+
+def git_kind(row):
+    o = row["o"]
+    if not o["ok"]:
+        return "error:%s@%s" % (o.get("exc"), o.get("site"))
+    return "origin" if o["exp"] != o["orig"] else None
+
+
 def run_native(ctx, h, idx, root):
+    names = cc.names_of(idx)
+    row = native_once(ctx, h, idx, root, names)
+    row["pyfail"] = native_kind(row)
+    if row["pyfail"] is not None:
+        row["min"], row["cls"], row["min_runs"] = cc.minimise_row(
+            h, native_kind, lambda c, nm: native_once(ctx, c, idx, root, nm), names)
+    return row
+
+
+def run_git(ctx, h, idx, root):
+    names = cc.names_of(idx)
+    row = git_once(ctx, h, idx, root, names)
+    row["pyfail"] = git_kind(row)
+    if row["pyfail"] is not None:
+        row["min"], row["cls"], row["min_runs"] = cc.minimise_row(
+            h, git_kind, lambda c, nm: git_once(ctx, c, idx, root, nm), names)
+    return row
+
+
+def native_once(ctx, h, idx, root, names):
     from breezy import branch as B
-    cc.set_names(idx)
+    cc.set_names(names)
     n = len(h["P"])
     work = tempfile.mkdtemp(prefix="c35-", dir=root)
     b = cc.materialise(ctx, h, os.path.join(work, "src"))
@@ -283,12 +326,12 @@ def build_git(path, h):
     return info
 
 
-def run_git(ctx, h, idx, root):
+def git_once(ctx, h, idx, root, names):
     """GitOriginStable: build with dulwich, import, let the object store of the imported repository reproduce the
     objects (and push them to a second git repository)."""
     from breezy import branch as B
     from breezy.git.mapping import default_mapping
-    cc.set_names(idx)
+    cc.set_names(names)
     work = tempfile.mkdtemp(prefix="c35g-", dir=root)
     o = {"ok": True, "orig": [], "exp": []}
     try:
@@ -384,57 +427,68 @@ def run(ctx):
     ctx.assume("'(empty directories excepted)' is read in both directions: trees are compared after DropEmptyDirs; a stray "
                "empty directory is reported as drift only")
     bad = cc.judge(ctx, rows)
+    judged_bad = set()
     for row, failed, drifts, notes in bad:
         h, o = row["c"], row["o"]
-        cls = "merge" if any(len(ps) > 1 for ps in h["P"]) else "linear"
+        coarse = "unminimised-" + ("merge" if any(len(ps) > 1 for ps in h["P"]) else "linear")
+        cls = row.get("cls") or coarse
+        kind = row.get("pyfail") or ""
+        where = "minimal failing history %s, found in %s" % (cc.hkey(row.get("min") or h), cc.hkey(h))
+        rep = dict(cc.lean(row), minimal=row.get("min"))
+        if failed:
+            judged_bad.add((row["kind"], row["idx"]))
         if row["kind"] == "native":
-            rt = o["rt"]
-            if ("shape" in failed or "trees" in failed) and not rt["ok"]:
-                gitside = "gitside-ok" if o["git"]["ok"] and "gitside" not in drifts else "gitside-bad"
-                ctx.violation("roundtrip:%s:%s@%s:%s:%s" % (rt.get("stage"), rt["exc"], rt["site"], cls, gitside),
-                              "push to git and fetch back fails at %s with %s: %s (history %s)" % (
-                                  rt.get("stage"), rt["exc"], rt.get("emsg"), cc.hkey(h)), cc.lean(row))
-            else:
-                if "shape" in failed:
-                    ctx.violation("roundtrip:shape:%s" % cls, "revision graph after the round trip differs: %s -> %s" % (
-                        h["P"], rt["P"]), cc.lean(row))
-                if "trees" in failed:
-                    sig, desc = cc.tree_signature(h, rt)
-                    ctx.violation("roundtrip:trees:%s" % sig, "tree after push + fetch back differs, %s (history %s)" % (
-                        desc, cc.hkey(h)), cc.lean(row))
-            s = o["sha"]
+            rt, s = o["rt"], o["sha"]
+            if {"shape", "trees"} & set(failed):
+                c = cls if kind.startswith("rt:") else coarse
+                if not rt["ok"]:
+                    gitside = "gitside-ok" if o["git"]["ok"] and "gitside" not in drifts else "gitside-bad"
+                    ctx.violation("roundtrip:%s:%s@%s:%s:%s" % (rt.get("stage"), rt["exc"], rt["site"], c, gitside),
+                                  "push to git and fetch back fails at %s with %s: %s (%s)" % (
+                                      rt.get("stage"), rt["exc"], rt.get("emsg"), where), rep)
+                elif "shape" in failed:
+                    ctx.violation("roundtrip:shape:%s" % c, "revision graph after the round trip is %s, source graph is %s (%s)" % (
+                        rt["P"], h["P"], where), rep)
+                else:
+                    _, desc = cc.tree_signature(h, rt)
+                    ctx.violation("roundtrip:trees:%s" % c, "tree after push + fetch back differs: %s (%s)" % (desc, where), rep)
             if "incremental" in failed:
+                c = cls if kind in ("incremental",) or kind.startswith("sha-error") else coarse
                 if not s["ok"]:
-                    ctx.violation("incremental:%s@%s:%s" % (s["exc"], s["site"], cls),
-                                  "tree SHA computation fails: %s %s (history %s)" % (s["exc"], s.get("emsg"), cc.hkey(h)),
-                                  cc.lean(row))
+                    ctx.violation("incremental:%s@%s:%s" % (s["exc"], s["site"], c),
+                                  "tree SHA computation fails: %s %s (%s)" % (s["exc"], s.get("emsg"), where), rep)
                 else:
                     rs = [r for r in range(1, len(s["scratch"]) + 1)
                           if not (s["warm"][r - 1] == s["scratch"][r - 1] == s["coldp"][r - 1])]
                     which = "+".join(sorted({w for r in rs for w in ("warm", "coldp") if s[w][r - 1] != s["scratch"][r - 1]}))
-                    ec = "+".join(sorted(set().union(*[cc.edit_classes(h, r) for r in rs])))
-                    ctx.violation("incremental:%s:%s" % (which, ec),
+                    ctx.violation("incremental:%s:%s" % (which, c),
                                   "tree SHA of revision(s) %s differs between incremental (%s) and from-scratch conversion: "
-                                  "%s (history %s)" % (rs, which, {k: s[k] for k in ("warm", "coldp", "scratch")}, cc.hkey(h)),
-                                  cc.lean(row))
-            if "staged" in failed and "incremental" not in failed and s["ok"] and rt["ok"]:
-                ctx.violation("staged:%s" % cls, "two pushes create other commits than one push: %s vs %s (history %s)" % (
-                    s["staged"], s["oneshot"], cc.hkey(h)), cc.lean(row))
-            elif "staged" in failed and "incremental" not in failed and not s["ok"]:
-                ctx.violation("staged:%s@%s:%s" % (s["exc"], s["site"], cls), "staged push fails: %s %s (history %s)" % (
-                    s["exc"], s.get("emsg"), cc.hkey(h)), cc.lean(row))
+                                  "%s (%s)" % (rs, which, {k: s[k] for k in ("warm", "coldp", "scratch")}, where), rep)
+            elif "staged" in failed:
+                c = cls if kind == "staged" or kind.startswith("sha-error") else coarse
+                if s["ok"]:
+                    ctx.violation("staged:%s" % c, "two pushes create the commits %s, one push creates %s (%s)" % (
+                        s["staged"], s["oneshot"], where), rep)
+                elif rt["ok"] or rt.get("stage") != "push":
+                    ctx.violation("staged:%s@%s:%s" % (s["exc"], s["site"], c), "staged push fails: %s %s (%s)" % (
+                        s["exc"], s.get("emsg"), where), rep)
             for d in drifts:
-                ctx.drift("native history: %s differs from the specification (history %s)" % (d, cc.hkey(h)), cc.lean(row))
-        else:
-            if "origin" in failed:
-                if not o["ok"]:
-                    ctx.violation("origin:%s@%s:%s" % (o["exc"], o["site"], cls),
-                                  "importing / re-exporting a git history fails with %s: %s (history %s)" % (
-                                      o["exc"], o.get("emsg"), cc.hkey(h)), cc.lean(row))
-                else:
-                    rs = [r for r in range(1, len(o["orig"]) + 1) if o["exp"][r - 1] != o["orig"][r - 1]]
-                    what = "+".join(sorted({k for r in rs for k in o["orig"][r - 1] if o["exp"][r - 1][k] != o["orig"][r - 1][k]}))
-                    ec = "+".join(sorted(set().union(*[cc.edit_classes(h, r) for r in rs])))
-                    ctx.violation("origin:%s:%s" % (what, ec),
-                                  "exported git objects of revision(s) %s differ from the original (%s) (history %s)" % (
-                                      rs, what, cc.hkey(h)), cc.lean(row))
+                if d == "gitside" and not rt["ok"]:
+                    continue                                   # already part of the violation's signature
+                ctx.drift("native history: %s differs from the specification (history %s)" % (d, cc.hkey(h)), rep)
+        elif "origin" in failed:
+            if not o["ok"]:
+                ctx.violation("origin:%s@%s:%s" % (o["exc"], o["site"], cls),
+                              "importing / re-exporting a git-built history fails with %s: %s (%s)" % (
+                                  o["exc"], o.get("emsg"), where), rep)
+            else:
+                rs = [r for r in range(1, len(o["orig"]) + 1) if o["exp"][r - 1] != o["orig"][r - 1]]
+                what = "+".join(sorted({k for r in rs for k in o["orig"][r - 1] if o["exp"][r - 1][k] != o["orig"][r - 1][k]}))
+                ctx.violation("origin:%s:%s" % (what, cls),
+                              "exported git objects of revision(s) %s differ from the original in %s: %s vs %s (%s)" % (
+                                  rs, what, [o["exp"][r - 1] for r in rs], [o["orig"][r - 1] for r in rs], where), rep)
+    for r in rows:                                             # the python twin only serves minimisation; it must agree
+        if (r["pyfail"] is not None) != ((r["kind"], r["idx"]) in judged_bad):
+            ctx.drift("python twin of the laws (%s) and TLC (%s) disagree on %s history %s" % (
+                r["pyfail"], (r["kind"], r["idx"]) in judged_bad, r["kind"], cc.hkey(r["c"])), cc.lean(r))
+    ctx.cov["minimisation_runs"] = sum(r.get("min_runs", 0) for r in rows)
